@@ -111,9 +111,15 @@ void lattice(vf::Ctx& c, const char* tname, const GridCfg& gc, size_t originBloc
     auto ta = r.decode(a); P o; for (size_t d = 0; d < DIM; ++d) o[d] = ax[d][ta[d]];
     for (uint64_t b = 0; b < np; ++b) {
       auto tb = r.decode(b); P e; for (size_t d = 0; d < DIM; ++d) e[d] = ax[d][tb[d]];
-      RayCasting<S, DIM> rc(&g);
+      // three ways of obtaining a fresh caster on this grid: constructed on it, default-constructed then attached, moved from another grid
+      int form = (int)((a + b) % 3);
+      static GridIndexMapping<S, DIM> other((S)3, (S)0.5);
+      RayCasting<S, DIM> rc0(&g), rc1, rc2(&other);
+      if (form == 1) rc1.setGridIndexMapping(&g);
+      if (form == 2) { P z = P::Zero(); (void)rc2.cast(z, z); rc2.setGridIndexMapping(&g); }
+      RayCasting<S, DIM>& rc = form == 0 ? rc0 : form == 1 ? rc1 : rc2;
       auto ray = rc.cast(o, e);
-      bool ok = check_cast<S, DIM>(c, g, o, e, ray, tname, gc, "fresh.cast(o,e)");
+      bool ok = check_cast<S, DIM>(c, g, o, e, ray, tname, gc, form == 0 ? "constructed-on-grid.cast(o,e)" : form == 1 ? "default-constructed+setGridIndexMapping.cast(o,e)" : "moved-from-another-grid.cast(o,e)");
       bool special = (a == b); for (size_t d = 0; d < DIM; ++d) if (ta[d] == tb[d]) special = true;   // axis-aligned / coincident
       { size_t same = 0; for (size_t d = 0; d < DIM; ++d) if ((long)ta[d] - (long)tb[d] == (long)ta[0] - (long)tb[0]) same++; if (same == DIM) special = true; }  // diagonal
       if (special) c.nontrivial(); else if (ray.size() > 2) c.nontrivial();
@@ -127,19 +133,20 @@ void lattice(vf::Ctx& c, const char* tname, const GridCfg& gc, size_t originBloc
 template <class S, size_t DIM>
 void sequences(vf::Ctx& c, const char* tname, int depth, size_t firstOp) {
   using P = Eigen::Matrix<S, DIM, 1>; using I = Eigen::Matrix<size_t, DIM, 1>;
-  GridCfg gc{0.25, 21, false, 0, 0};
-  auto g = make_grid<S, DIM>(gc);
+  GridCfg gc{0.25, 21, false, 0, 0}, gcB{0.1, 61, false, 0, 0};
+  auto g = make_grid<S, DIM>(gc); auto gB = make_grid<S, DIM>(gcB);   // same extent [-2.5,2.5] (resp. [-3,3]) at two resolutions: all four points lie in both
   std::vector<P> pts(4);
   for (size_t d = 0; d < DIM; ++d) { pts[0][d] = (S)(-1.3 + 0.4 * d); pts[1][d] = (S)(2.1 - 0.7 * d); pts[2][d] = (d == 0) ? (S)-1.3 : (S)1.9; pts[3][d] = (S)(0.125 + 0.25 * d); }
-  // ops: 0-3 setOrigin(p), 4-7 setEnd(p), 8-11 cast(p), 12-27 cast(o,e), 28 cast(), 29 next()
-  const int NOPS = 30;
-  auto opname = [&](int op) { char b[64]; if (op < 4) snprintf(b, 64, "setOriginPoint(p%d)", op); else if (op < 8) snprintf(b, 64, "setEndPoint(p%d)", op - 4); else if (op < 12) snprintf(b, 64, "cast(p%d)", op - 8); else if (op < 28) snprintf(b, 64, "cast(p%d,p%d)", (op - 12) / 4, (op - 12) % 4); else if (op == 28) snprintf(b, 64, "cast()"); else snprintf(b, 64, "next()"); return std::string(b); };
+  // ops: 0-3 setOrigin(p), 4-7 setEnd(p), 8-11 cast(p), 12-27 cast(o,e), 28 cast(), 29 next(), 30/31 setGridIndexMapping(grid A / grid B)
+  const int NOPS = 32;
+  auto opname = [&](int op) { char b[64]; if (op < 4) snprintf(b, 64, "setOriginPoint(p%d)", op); else if (op < 8) snprintf(b, 64, "setEndPoint(p%d)", op - 4); else if (op < 12) snprintf(b, 64, "cast(p%d)", op - 8); else if (op < 28) snprintf(b, 64, "cast(p%d,p%d)", (op - 12) / 4, (op - 12) % 4); else if (op == 28) snprintf(b, 64, "cast()"); else if (op == 29) snprintf(b, 64, "next()"); else snprintf(b, 64, "setGridIndexMapping(grid%c)", op == 30 ? 'A' : 'B'); return std::string(b); };
   uint64_t total = 1; for (int i = 1; i < depth; ++i) total *= NOPS;
   std::unordered_set<uint64_t> states;
   std::vector<int> seq(depth); seq[0] = (int)firstOp;
   for (uint64_t k = 0; k < total; ++k) {
     uint64_t r = k; for (int i = 1; i < depth; ++i) { seq[i] = r % NOPS; r /= NOPS; }
     RayCasting<S, DIM> rc(&g);
+    GridIndexMapping<S, DIM>* cur = &g; const GridCfg* curCfg = &gc;
     bool originSet = false; P curO = P::Zero();
     for (int i = 0; i < depth; ++i) {
       int op = seq[i];
@@ -153,16 +160,17 @@ void sequences(vf::Ctx& c, const char* tname, int depth, size_t firstOp) {
       else if (op < 12) { e = pts[op - 8]; got = rc.cast(e); isCast = true; }
       else if (op < 28) { o = pts[(op - 12) / 4]; e = pts[(op - 12) % 4]; got = rc.cast(o, e); originSet = true; curO = o; isCast = true; }
       else if (op == 28) { if (rc.computeRayNumberOfCells() < 100000) (void)rc.cast(); }
-      else { I cell = rc.getOriginPointIndexes(); rc.next(cell); }
+      else if (op == 29) { I cell = rc.getOriginPointIndexes(); rc.next(cell); }
+      else { cur = op == 30 ? &g : &gB; curCfg = op == 30 ? &gc : &gcB; rc.setGridIndexMapping(cur); originSet = false; }   // origin / end indexes belong to the previous grid: an origin must be set again
       if (isCast) {
         c.eval(); if (i > 0) c.nontrivial();
-        RayCasting<S, DIM> fresh(&g);
+        RayCasting<S, DIM> fresh(cur);
         auto want = fresh.cast(o, e);
         bool same = got.size() == want.size();
         for (size_t j = 0; same && j < got.size(); ++j) same = got[j] == want[j];
         for (auto& cell : got) for (size_t d = 0; d < DIM; ++d) c.obs((uint64_t)cell[d]);
         if (!same) { c.violation("RayCasting.cast.dependsOnHistory", params(), vf::JO().u("got_len", got.size()).u("fresh_len", want.size()).done()); break; }
-        if (!check_cast<S, DIM>(c, g, o, e, got, tname, gc, "reused.cast")) break;
+        if (!check_cast<S, DIM>(c, *cur, o, e, got, tname, *curCfg, "reused.cast")) break;
       }
       uint64_t h = 17;
       for (size_t d = 0; d < DIM; ++d) { h = vf::mix64(h, rc.rayOriginIndexes_[d]); h = vf::mix64(h, rc.rayEndIndexes_[d]); h = vf::mix64(h, (uint64_t)(int64_t)rc.rayStep_[d]);
@@ -189,7 +197,7 @@ const std::vector<Case>& cases(bool th) {
     bool is3 = t & 1; int ng = is3 ? n3 : n2;
     for (int gI = 0; gI < ng; ++gI) { size_t nb = 16; for (size_t b = 0; b < nb; ++b) v.push_back({0, t, gI, b, nb, 0, 0}); }
   }
-  for (int t = 0; t < 4; ++t) for (size_t f = 0; f < 30; ++f) v.push_back({1, t, 0, 0, 0, th ? 4 : 3, f});
+  for (int t = 0; t < 4; ++t) for (size_t f = 0; f < 32; ++f) v.push_back({1, t, 0, 0, 0, th ? 4 : 3, f});
   return v;
 }
 const char* kT[] = {"double2", "double3", "float2", "float3"};
@@ -228,8 +236,9 @@ std::string vf_describe(const std::string& tier) {
   o.str("grids_2d", th ? "res{0.1,0.25,1}x21, res{0.01,0.1,1}x201, two interval-form grids, res{0.01,0.25,1}x2001 cells/axis" : "res{0.1,0.25,1}x21, res{0.01,0.1,1}x201 cells/axis, two interval-form grids with unaligned bounds");
   o.str("grids_3d", th ? "res{0.1,1}x21, 0.25x101, interval form, res{0.01,1}x201" : "res{0.1,1}x21, 0.25x101, interval form");
   o.str("points", "2D: cells {0,1,N/4,N/2,N-2,N-1} x sub-cell offsets {-1/2 (border),-1/4,0 (centre),+1/4} per axis; 3D: cells {0,N/2,N-1} x {-1/2,0,+1/4}; plus border -+ max(res/2^17, 4ulp) for cells {1,N/2} (3D: N/2); all origin x end pairs (generic, axis-aligned, diagonal through corners, coincident)");
+  o.str("fresh_caster_forms", "constructed on the grid / default-constructed then setGridIndexMapping / used on another grid then moved (rotating over the origin-end pairs)");
   o.str("tolerance", "(cells visited + 4) ulp(max(range,|coord|)) + 4 ulp(|coord|): worst-case accumulation of tMax += tDelta");
-  o.i("sequence_depth", th ? 4 : 3).str("sequence_ops", "setOriginPoint(p0..3), setEndPoint(p0..3), cast(p), cast(p,q), cast(), next() = 30 ops; all sequences, all four instantiations; differential oracle vs fresh caster + full geometric oracle");
+  o.i("sequence_depth", th ? 4 : 3).str("sequence_ops", "setOriginPoint(p0..3), setEndPoint(p0..3), cast(p), cast(p,q), cast(), next(), setGridIndexMapping(A|B) = 32 ops (two grids of different resolution); all sequences, all four instantiations; differential oracle vs fresh caster + full geometric oracle");
   return o.done();
 }
 
